@@ -672,6 +672,13 @@ func (c *FnCtx) stdModel(fr *frame, st *State, site ssa.Instruction, name string
 		}
 		c.mutexModel(fr, st, name, cc)
 		return c.noopCall(st, cc.Signature()), true
+	case name == "errors.New":
+		// a fresh, non-nil error value
+		r := c.noopCall(st, cc.Signature())
+		if t, ok := r.(Term); ok && t.Sort == SIface {
+			c.assume("", fmt.Sprintf("(not (= %s (mk_Iface 0 0)))", t.S))
+		}
+		return r, true
 	case strings.HasPrefix(name, "time."), strings.HasPrefix(name, "runtime."), strings.HasPrefix(name, "math."), strings.HasPrefix(name, "strings."), strings.HasPrefix(name, "os."), strings.HasPrefix(name, "errors."):
 		return c.noopCall(st, cc.Signature()), true
 	}
@@ -731,6 +738,8 @@ func (c *FnCtx) mutexModel(fr *frame, st *State, name string, cc *ssa.CallCommon
 		}
 		rc := c.get(st, rreg)
 		if method == "RLock" {
+			// hold counts are never negative (ghost well-formedness)
+			c.assume(st.g, fmt.Sprintf("(>= (select %s %s) 0)", rc, m))
 			c.set(st, rreg, fmt.Sprintf("(store %s %s (+ (select %s %s) 1))", rc, m, rc, m))
 		} else {
 			c.oblige("lock", "runlock-held@"+shortPos(c.curPos), st.g, fmt.Sprintf("(> (select %s %s) 0)", rc, m), "RUnlock of a mutex this function does not read-hold")
